@@ -18,12 +18,15 @@ From SC Require Import Lib.Prelude Lib.Int Lib.Host Model.Timelock Model.Timeloc
 
 (* __check_auth (fixed code) succeeds only with exactly one descriptor per context; every context
    names the controller; the operation (controller, fn, args, predecessor, salt) it stands for was
-   Ready and is Done afterwards, its predecessor is zero or Done; when executors are configured an
-   executor holding the role (not the controller) signed for exactly that operation; nothing else
-   of the state changes. *)
+   Ready and is Done afterwards, its predecessor is zero or Done; when executors are configured the
+   descriptor names an account holding the executor role, which signed for exactly that operation -
+   or which is the controller itself: the host then takes the controller's running entry point as
+   the authorisation (invoker-contract rule; [direct] = false: __check_auth called by the host
+   inside an entry point, true: called directly by the test utility, where that rule cannot apply);
+   nothing else of the state changes. *)
 Theorem C09_check_auth_consumes :
-  forall (hash : op -> id) (cf : cfg) s metas ctxs xa s',
-    check_auth hash cf s metas ctxs xa = Ok s' ->
+  forall (hash : op -> id) (cf : cfg) direct s metas ctxs xa s',
+    check_auth hash cf direct s metas ctxs xa = Ok s' ->
     length metas = length ctxs /\ acs s' = acs s /\ cruns s' = cruns s /\
     now (ctl s') = now (ctl s) /\ min_delay (ctl s') = min_delay (ctl s) /\
     forall k c m, nth_error ctxs k = Some c -> nth_error metas k = Some m ->
@@ -32,7 +35,8 @@ Theorem C09_check_auth_consumes :
         state_of (ctl s) (hash o) = Ready /\ state_of (ctl s') (hash o) = Done /\
         (m_pred m = 0%N \/ state_of (ctl s') (m_pred m) = Done) /\
         (role_count (acs s) EXECUTOR <> 0 ->
-         exists x, m_exec m = Some x /\ holds (acs s) x EXECUTOR = true /\ x <> self cf /\ xa_has xa x o = true).
+         exists x, m_exec m = Some x /\ holds (acs s) x EXECUTOR = true /\
+                   (x = self cf /\ direct = false \/ x <> self cf /\ xa_has xa x o = true)).
 Proof. exact check_auth_consumes. Qed.
 Print Assumptions C09_check_auth_consumes.
 
@@ -41,9 +45,9 @@ Print Assumptions C09_check_auth_consumes.
    nothing is consumed; the fixed code refuses it, directly and end to end. *)
 Theorem C09_prefix_refuted :
   marks (ctl ex_state) = [] /\ admin (acs ex_state) = Some (self C09Final.ex_cf) /\ role_count (acs ex_state) EXECUTOR = 1 /\
-  check_auth_prefix hash_pair C09Final.ex_cf ex_state [] [CtxC 1 F_update_delay 0] [] = Ok ex_state /\
-  (exists s', check_auth_prefix hash_pair C09Final.ex_cf ex_state [] [CtxC 1 F_update_delay 0] [] = Ok s' /\ marks (ctl s') = []) /\
-  check_auth hash_pair C09Final.ex_cf ex_state [] [CtxC 1 F_update_delay 0] [] = Fail /\
+  check_auth_prefix hash_pair C09Final.ex_cf true ex_state [] [CtxC 1 F_update_delay 0] [] = Ok ex_state /\
+  (exists s', check_auth_prefix hash_pair C09Final.ex_cf true ex_state [] [CtxC 1 F_update_delay 0] [] = Ok s' /\ marks (ctl s') = []) /\
+  check_auth hash_pair C09Final.ex_cf true ex_state [] [CtxC 1 F_update_delay 0] [] = Fail /\
   step_ok hash_pair ex_aid C09Final.ex_cf ex_state
     (UpdateDelay 0 (AZ [] (Some (SE (CtxC 1 F_update_delay 0) [] [])) [])) = Fail.
 Proof. exact prefix_refuted. Qed.
@@ -53,7 +57,8 @@ Print Assumptions C09_prefix_refuted.
    set_role_admin, transfer_admin_role, renounce_admin) and grant_role / revoke_role /
    renounce_role called with the controller as signer succeed only by consuming - in that very
    call - a Ready operation (controller, that function, those arguments, predecessor, salt), with
-   an executor's signature when executors are configured ([consumes], Model/TimelockController.v). *)
+   the signature of an executor when executors are configured - unless the controller itself was
+   given the executor role and is named as the executor ([consumes], Model/TimelockController.v). *)
 Theorem C09_self_admin_call_consumes :
   forall (hash : op -> id) (aid : argv -> N) (cf : cfg) s c s' r,
     step_ok hash aid cf s c = Ok (s', r) -> admin (acs s) = Some (self cf) ->
